@@ -208,6 +208,53 @@ def c18_state_violation(bb):
     return None
 
 
+def c18_refusal_violation(bb):
+    """`refused rather than returned with unlabeled entries`: when some fitted position 0..n-1 is in no
+    cluster (labels given by the caller with repeats or gaps), get_assignments() must raise; a returned
+    vector with a 0 entry is the violation"""
+    if not bb.is_init:
+        return None
+    n = int(bb.num_fitted_fps)
+    covered = {int(i) for c in bb.get_cluster_mol_ids() for i in c if 0 <= int(i) < n}
+    if len(covered) == n:
+        return None
+    for sort in (True, False):
+        try:
+            got = [int(v) for v in bb.get_assignments(sort=sort)]
+        except Exception:
+            continue
+        zeros = [i for i, v in enumerate(got) if v == 0]
+        if zeros:
+            return (f"get_assignments(sort={sort}) returned a vector with unlabeled entries at positions {zeros[:8]} "
+                    f"({n} fitted, positions {sorted(set(range(n)) - covered)[:8]} are in no cluster) instead of raising")
+    return None
+
+
+def gen_gappy(seed, n):
+    """fits whose caller-given labels repeat or leave gaps below the number of fitted rows; plain fits after them"""
+    rng = random.Random(seed + 79)
+    hs = []
+    for _ in range(n):
+        cfg = hist.gen_cfg(rng)
+        nf = rng.choice([5, 8, 16])
+        ops, protos = [], None
+        total = 0
+        for _k in range(rng.randint(1, 3)):
+            m = rng.randint(2, 10)
+            rows, protos = hist.gen_fps(rng, m, nf, protos)
+            total += m
+            kind = rng.choice(["repeat", "gap", "plain"])
+            if kind == "plain":
+                labels = None
+            elif kind == "repeat":
+                labels = [rng.randrange(total) for _ in range(m)]
+            else:
+                labels = rng.sample(range(total), m)
+            ops.append({"op": "fit", "rows": rows, "labels": labels, "form": "unpacked-array", "bad_at": None})
+        hs.append({"cfg": cfg, "nf": nf, "ops": ops})
+    return hs
+
+
 def run_states_oracle(h):
     """history h on the implementation, the assignment clause checked after every operation"""
     import bblean.bitbirch as bbm
@@ -216,7 +263,7 @@ def run_states_oracle(h):
     data = {}
     for k, op in enumerate(h["ops"]):
         hist.apply_op(bb, op, data, h["nf"])
-        v = c18_state_violation(bb)
+        v = c18_state_violation(bb) or c18_refusal_violation(bb)
         if v:
             return k, v
     return None
@@ -237,6 +284,9 @@ def gen_state_histories(seed, n):
 def suite_label_states(seed, tier):
     import suite_hist
     hs = gen_state_histories(seed, 600 if tier == "quick" else 12000)
+    gappy = gen_gappy(seed, 150 if tier == "quick" else 3000)
+    n_model = 30 if tier == "quick" else 400
+    hs = hs[:n_model] + gappy + hs[n_model:]
     r = Result("label-states")
     states = 0
     for h in hs:
